@@ -213,3 +213,59 @@ theorem run_inv (sched : List Nat) : ∀ (s : Sys), SysInv s → NoOverflow P s 
     exact ⟨BitVec.le_trans h1 h3, h4⟩
 
 end SerfProofs.Lamport
+
+namespace SerfProofs.Lamport
+open SerfModel.Atomic SerfModel.Gen
+
+/-- Values returned by increments during a run are above the counter the run started from. -/
+theorem run_incs_new (sched : List Nat) : ∀ (s : Sys), SysInv s → NoOverflow P s sched →
+    ∀ r ∈ (run P s sched).incs, r ∈ s.incs ∨ s.counter < r := by
+  induction sched with
+  | nil => intro s _ _ r hr; exact Or.inl hr
+  | cons t rest ih =>
+    intro s h hno r hr
+    obtain ⟨h1, h2⟩ := step_inv s t h hno.1
+    rcases ih (step P s t) h2 hno.2 r hr with hin | hgt
+    · -- r is in the incs right after the first step
+      unfold step at hin
+      cases hth : s.threads[t]? with
+      | none => simp only [hth] at hin; exact Or.inl hin
+      | some th =>
+        simp only [hth] at hin
+        have hmem : th ∈ s.threads := List.mem_of_getElem? hth
+        have hno' := hno.1
+        rw [overflowStep_eq s t th hth] at hno'
+        obtain ⟨_, _, hinc⟩ := stepThread_inv s.counter th (h.1 th hmem) hno'
+        cases hi : (stepThread P s.counter th).2.2 with
+        | none => simp only [hi] at hin; exact Or.inl hin
+        | some w =>
+          simp only [hi, List.mem_cons] at hin
+          rcases hin with rfl | hin
+          · exact Or.inr (hinc _ hi).1
+          · exact Or.inl hin
+    · exact Or.inr (by bv_omega)
+
+theorem noOverflow_take (sched : List Nat) : ∀ (s : Sys) (k : Nat), NoOverflow P s sched → NoOverflow P s (sched.take k) := by
+  induction sched with
+  | nil => intro s k h; simpa using h
+  | cons t rest ih =>
+    intro s k h
+    cases k with
+    | zero => trivial
+    | succ k => exact ⟨h.1, ih _ k h.2⟩
+
+theorem noOverflow_drop (sched : List Nat) : ∀ (s : Sys) (k : Nat), NoOverflow P s sched →
+    NoOverflow P (run P s (sched.take k)) (sched.drop k) := by
+  induction sched with
+  | nil => intro s k h; simpa [run] using h
+  | cons t rest ih =>
+    intro s k h
+    cases k with
+    | zero => simpa [run] using h
+    | succ k => simpa [run] using ih _ k h.2
+
+theorem run_append (s : Sys) (a b : List Nat) : run P s (a ++ b) = run P (run P s a) b := by
+  simp [run, List.foldl_append]
+
+
+end SerfProofs.Lamport
